@@ -425,7 +425,8 @@ def rule_model(ctx):
     # (a') (seed C07_10) the model maintains every figure for every removal: no update of a figure in
     # `remove` is switched by a caller option — the object returned (and cached by the finder, and used as
     # the parent of later removals) reports .size/.flops/.nslices of the sliced contraction
-    params = {a.arg for a in rm.node.args.args + rm.node.args.kwonlyargs} - {"self", "ix"}
+    ixp = rm.node.args.args[1].arg if len(rm.node.args.args) > 1 else "ix"
+    params = {a.arg for a in rm.node.args.args + rm.node.args.kwonlyargs} - {"self", ixp}
     la = ctx.r.local_assignments(rm)
 
     def option_names(test):
@@ -747,7 +748,8 @@ def rule_arith(ctx):
     C.require(len(loops) == 1, "ContractionCosts.remove: expected one loop over the affected contractions")
     lp = loops[0]
     ivar = lp.target.id if isinstance(lp.target, ast.Name) else "i"
-    env = {f"{cost}.size_dict[ix]": d}
+    IX = f.node.args.args[1].arg          # the removed index, whatever the parameter is called
+    env = {f"{cost}.size_dict[{IX}]": d}
     it = Interp(env=env, tuples={f"{cost}.contractions[{ivar}]": entry})
 
     def on_loop(st, env_, sets_):
@@ -766,9 +768,9 @@ def rule_arith(ctx):
     if not strict or C.unparse(lp.iter) != C.unparse(strict[0]):
         probs.append("the loop does not run over the contractions registered under the removed index")
     report(ctx.key(f, "C07-ARITH", "remove-slices"), f, probs, "nslices *= d, once; loop over the contractions that involve the index", lp)
-    in_legs, not_in_legs = ("ix in old_legs", True), ("ix in old_legs", False)
+    in_legs, not_in_legs = (f"{IX} in old_legs", True), (f"{IX} in old_legs", False)
     # names of the unpacked legs may differ: find the membership test actually used
-    tests = {c for x in effects for c in x.conds if c[0].startswith("ix in ")}
+    tests = {c for x in effects for c in x.conds if c[0].startswith(f"{IX} in ")}
     if tests:
         tname = sorted(tests)[0][0]
         in_legs, not_in_legs = (tname, True), (tname, False)
@@ -778,14 +780,14 @@ def rule_arith(ctx):
             len({x.conds for x in e}) == len(e)):
         probs.append(f"the flops total does not move by F/d - F per affected contraction "
                      f"({[(x.op, x.value) for x in e[:2]]})")
-    for cond, cname, want_size, want_legs in ((in_legs, "on the result", S.div(d), ("set", "L", ("ix",))),
+    for cond, cname, want_size, want_legs in ((in_legs, "on the result", S.div(d), ("set", "L", (IX,))),
                                               (not_in_legs, "summed", S, ("set", "L", ()))):
         st = [x for x in eff(effects, "store", f"{cost}.contractions[{ivar}]") if cond in x.conds]
         if len(st) != 1 or not isinstance(st[0].value, tuple) or len(st[0].value) != 4:
             probs.append(f"index {cname}: the updated entry is not stored once as a 4-tuple")
             continue
         got = dict(zip(layout, st[0].value))
-        if got["involved"] != ("set", "I", ("ix",)):
+        if got["involved"] != ("set", "I", (IX,)):
             probs.append(f"index {cname}: the stored involved set is not the old one minus the index ({got['involved']})")
         if got["legs"] != want_legs:
             probs.append(f"index {cname}: the stored legs are {got['legs']}, expected {want_legs}")
@@ -804,13 +806,13 @@ def rule_arith(ctx):
         probs.append("S/d is not entered into the size multiset exactly when the index is on the result")
     report(ctx.key(f, "C07-ARITH", "remove-sizes"), f, probs, "sizes: discard(S), add(S/d) iff the index is on the result", lp)
     probs = []
-    fr = eff(effects, "aug", f"{cost}._flop_reductions", loop_frag="set:('I', ('ix',))")
+    fr = eff(effects, "aug", f"{cost}._flop_reductions", loop_frag=f"set:('I', ('{IX}',))")
     want = (F.div(d) - F.div(d).div(di)) - (F - F.div(di))
     if not (fr and all(x.delta == want for x in fr)):
         got = [(x.op, x.value, x.loops[-1]) for x in eff(effects, "aug", f"{cost}._flop_reductions")][:2]
         probs.append(f"the potential flops reduction of the other involved indices does not move by "
                      f"(F/d - F/(d di)) - (F - F/di) (found {got})")
-    wr = eff(effects, "aug", f"{cost}._write_reductions", loop_frag="set:('L', ('ix',))")
+    wr = eff(effects, "aug", f"{cost}._write_reductions", loop_frag=f"set:('L', ('{IX}',))")
     want_w = (S.div(d) - S.div(d).div(di)) - (S - S.div(di))
     if not (wr and all(x.delta == want_w and in_legs in x.conds for x in wr)):
         got = [(x.op, x.value, x.loops[-1], list(x.conds)) for x in eff(effects, "aug", f"{cost}._write_reductions")][:2]
@@ -820,7 +822,7 @@ def rule_arith(ctx):
            "reductions of the remaining indices move by the difference of new and old potential", lp)
     probs = []
     dels = {x.target for x in effects if x.kind == "del" and not x.loops}
-    for t in (f"{cost}.size_dict[ix]", f"{cost}._flop_reductions[ix]", f"{cost}._write_reductions[ix]"):
+    for t in (f"{cost}.size_dict[{IX}]", f"{cost}._flop_reductions[{IX}]", f"{cost}._write_reductions[{IX}]"):
         if t not in dels:
             probs.append(f"`del {t}` missing: the removed index stays a candidate")
     report(ctx.key(f, "C07-ARITH", "remove-forget"), f, probs, "the removed index leaves size_dict and both reduction tables")
